@@ -105,6 +105,7 @@ func (w *WorldSpec) build() (*Storage, *provider.Provider, error) {
 		cp := *r
 		st.Reqs[id] = &cp
 	}
+	st.nextID = 100000 + len(w.Recs) // identifiers of new records never collide with records of the world
 	copies := map[*User]*User{}
 	for id, u := range w.Users {
 		if copies[u] == nil {
@@ -412,10 +413,27 @@ func (lw *longWorld) serveBoth(rq c15Req) (long, fresh c15Summary, err error) {
 	for id := range lw.st.Reqs {
 		before[id] = true
 	}
+	fbefore := map[string]bool{}
+	for id := range fst.Reqs {
+		fbefore[id] = true
+	}
 	lrep := serve(lw.prov.HttpHandler(), rq.HTTP)
 	frep := serve(fprov.HttpHandler(), rq.HTTP)
 	cert := w.cert()
 	long, fresh = summarize(rq, lrep, cert), summarize(rq, frep, cert)
+	// what the SSO endpoint persisted is part of the outcome (the reply only carries the identifier)
+	persisted := func(st *Storage, old map[string]bool) string {
+		var out []string
+		for id, r := range st.Reqs {
+			if !old[id] {
+				out = append(out, fmt.Sprintf("%s|%s|%s|%s|%s", r.Acs, r.Binding, r.Relay, r.AppID, r.ReqID))
+			}
+		}
+		sort.Strings(out)
+		return " persisted=" + strings.Join(out, ",")
+	}
+	long.Text += persisted(lw.st, before)
+	fresh.Text += persisted(fst, fbefore)
 	// records the SSO endpoint persisted become part of the world
 	for id, r := range lw.st.Reqs {
 		if !before[id] {
